@@ -359,6 +359,47 @@ func (c *Ctx) Ite(cond, a, b *Term) *Term {
 	if a == b {
 		return a
 	}
+	if a.W > 0 && (a.Kind == KAdd || b.Kind == KAdd) {
+		// ite(c, b + t, b) = b + ite(c, t, 0)  and  ite(c, a, a + t) = a + ite(c, 0, t):
+		// guarded increments become plain sums (so that counters built under guards and
+		// sums of indicator terms are the same term)
+		split := func(ts []*Term) (xs []*Term, k uint64) {
+			for _, t := range ts {
+				if t.Kind == KConst {
+					k += t.Val
+				} else {
+					xs = append(xs, t)
+				}
+			}
+			return
+		}
+		ax, ak := split(addends(a, nil))
+		bx, bk := split(addends(b, nil))
+		if len(ax) >= len(bx) {
+			if rest, ok := multisetDiff(ax, bx); ok && (len(rest) > 0 || ak != bk) {
+				// a = b + rest + (ak - bk)
+				inc := c.sumNF(append(rest, c.BV(ak-bk, a.W)), a.W)
+				return c.sumNF(append(append([]*Term{}, bx...), c.BV(bk, a.W), c.mkIteRaw(cond, inc, c.BV(0, a.W))), a.W)
+			}
+		}
+		if len(bx) > len(ax) {
+			if rest, ok := multisetDiff(bx, ax); ok {
+				inc := c.sumNF(append(rest, c.BV(bk-ak, a.W)), a.W)
+				return c.sumNF(append(append([]*Term{}, ax...), c.BV(ak, a.W), c.mkIteRaw(cond, c.BV(0, a.W), inc)), a.W)
+			}
+		}
+	}
+	return c.mk(KIte, a.W, 0, 0, 0, "", cond, a, b)
+}
+
+// mkIteRaw builds ite(cond, a, b) with only the cheap simplifications (no sum rewriting).
+func (c *Ctx) mkIteRaw(cond, a, b *Term) *Term {
+	if a == b {
+		return a
+	}
+	if cond.Kind == KNot {
+		return c.mk(KIte, a.W, 0, 0, 0, "", cond.A[0], b, a)
+	}
 	return c.mk(KIte, a.W, 0, 0, 0, "", cond, a, b)
 }
 
@@ -547,7 +588,11 @@ func (c *Ctx) Bin(k Kind, a, b *Term) *Term {
 	if a.Kind == KConst && b.Kind == KConst {
 		return c.BV(evalBin(k, w, a.Val, b.Val), w)
 	}
-	// push through constant ites (keeps 0/1 flags foldable)
+	// push through constant ites (keeps 0/1 flags foldable); not for +, where the sum normal
+	// form must see the indicator terms themselves
+	if k == KAdd {
+		return c.sumNF(append(addends(a, nil), addends(b, nil)...), w)
+	}
 	if b.Kind == KConst && constIte(a) {
 		return c.Ite(a.A[0], c.BV(evalBin(k, w, a.A[1].Val, b.Val), w), c.BV(evalBin(k, w, a.A[2].Val, b.Val), w))
 	}
@@ -556,18 +601,7 @@ func (c *Ctx) Bin(k Kind, a, b *Term) *Term {
 	}
 	switch k {
 	case KAdd:
-		if a.Kind == KConst {
-			a, b = b, a
-		}
-		if b.Kind == KConst {
-			if b.Val == 0 {
-				return a
-			}
-			// (x + k1) + k2
-			if a.Kind == KAdd && a.A[1].Kind == KConst {
-				return c.Bin(KAdd, a.A[0], c.BV(a.A[1].Val+b.Val, w))
-			}
-		}
+		return c.sumNF(append(addends(a, nil), addends(b, nil)...), w)
 	case KSub:
 		if b.Kind == KConst {
 			if b.Val == 0 {
@@ -646,12 +680,76 @@ func (c *Ctx) Bin(k Kind, a, b *Term) *Term {
 		}
 	}
 	switch k {
-	case KAdd, KMul, KBAnd, KBOr, KBXor:
+	case KMul, KBAnd, KBOr, KBXor:
 		if b.Kind != KConst && a.H > b.H {
 			a, b = b, a
 		}
 	}
 	return c.mk(k, w, 0, 0, 0, "", a, b)
+}
+
+// addends flattens a left-associated sum into its addends.
+func addends(t *Term, out []*Term) []*Term {
+	for t.Kind == KAdd {
+		out = append(out, t.A[1])
+		t = t.A[0]
+	}
+	return append(out, t)
+}
+
+// sumNF builds the sum of ts in normal form: constants folded into one trailing constant,
+// the other addends ordered by structural hash, left-associated.  Two sums of the same
+// multiset of addends are therefore the same term, whatever order they were added in.
+func (c *Ctx) sumNF(ts []*Term, w uint8) *Term {
+	var k uint64
+	var xs []*Term
+	for _, t := range ts {
+		if t.Kind == KConst {
+			k += t.Val
+		} else {
+			xs = append(xs, t)
+		}
+	}
+	k &= mask(w)
+	sort.SliceStable(xs, func(i, j int) bool {
+		if xs[i].H != xs[j].H {
+			return xs[i].H < xs[j].H
+		}
+		return xs[i].ID < xs[j].ID
+	})
+	if len(xs) == 0 {
+		return c.BV(k, w)
+	}
+	acc := xs[0]
+	for _, x := range xs[1:] {
+		acc = c.mk(KAdd, w, 0, 0, 0, "", acc, x)
+	}
+	if k != 0 {
+		acc = c.mk(KAdd, w, 0, 0, 0, "", acc, c.BV(k, w))
+	}
+	return acc
+}
+
+// multisetDiff returns big \ small when small is a sub-multiset of big (by term identity).
+func multisetDiff(big, small []*Term) ([]*Term, bool) {
+	cnt := map[int32]int{}
+	for _, t := range small {
+		cnt[t.ID]++
+	}
+	var rest []*Term
+	for _, t := range big {
+		if cnt[t.ID] > 0 {
+			cnt[t.ID]--
+		} else {
+			rest = append(rest, t)
+		}
+	}
+	for _, v := range cnt {
+		if v != 0 {
+			return nil, false
+		}
+	}
+	return rest, true
 }
 
 func (c *Ctx) Cmp(k Kind, a, b *Term) *Term {
